@@ -94,7 +94,7 @@ pub struct MonState {
     /// quote taken before a swap: (ret, prot, swap, burn, extra)
     pub quote: Option<(u128, u128, u128, u128, u128)>,
     /// SimulateSwapOperations answer taken before a route: (return amount, pools pairwise distinct)
-    pub route_quote: Option<(u128, bool)>,
+    pub route_quote: Option<(Option<u128>, bool)>,
     /// the last REJECTED two-sided deposit that carried a liquidity tolerance: (line with the tolerance blanked, tolerance)
     pub rejected_tol_deposit: Option<(String, u128)>,
 }
@@ -133,9 +133,14 @@ pub fn pre_tx_quotes(h: &Hist, ms: &mut MonState, line: &str) {
             let r = h.query(&format!("q simops {} {}", tx.funds[0].1, ops));
             let mut pools: Vec<&String> = (0..n).map(|k| &tx.args[3 + 3 * k]).collect();
             pools.sort(); let before = pools.len(); pools.dedup();
-            if let Some(v) = r.split_whitespace().nth(1).and_then(|x| x.parse::<u128>().ok()) {
-                if r.starts_with("ok") { ms.route_quote = Some((v, pools.len() == before)); }
-            }
+            // (no denom is the output of two hops: otherwise the query's per-denom fee totals may overflow although the route
+            //  executes — `C12Sys.route_tx_equals_simulation_partial` and its counterexample)
+            let mut outs: Vec<&String> = (0..n).map(|k| &tx.args[2 + 3 * k]).collect();
+            outs.sort(); let nouts = outs.len(); outs.dedup();
+            let clean = pools.len() == before && outs.len() == nouts;
+            if r.starts_with("ok") {
+                if let Some(v) = r.split_whitespace().nth(1).and_then(|x| x.parse::<u128>().ok()) { ms.route_quote = Some((Some(v), pools.len() == before)); }
+            } else { ms.route_quote = Some((None, clean)); }
         }
         ("fm", "claim") => {
             let r = h.query(&format!("q rewards {} {}", tx.sender, tx.args.first().map(|x| x.as_str()).unwrap_or("-")));
@@ -216,8 +221,9 @@ pub fn state_monitors(h: &Hist, ms: &mut MonState, out: &mut Vec<String>) {
             o.users.get(who).and_then(|u| u.1.get(lp)).and_then(|h| h.last()).map(|x| x.1).unwrap_or(0)
         };
         let total = latest("fm");
-        let users: u128 = ["u1", "u2", "u3", "u4", "owner", "out", "pm"].iter().map(|u| latest(u)).sum();
-        if total > 0 || users > 0 { out.push(format!("mon_weights {} {} {}", lp, total, users)); }
+        // (the sums are taken in 256 bits: the users' weights may together exceed u128 when the total was wrongly capped)
+        let users: cosmwasm_std::Uint256 = ["u1", "u2", "u3", "u4", "owner", "out", "pm"].iter().map(|u| cosmwasm_std::Uint256::from(latest(u))).fold(cosmwasm_std::Uint256::zero(), |x, y| x + y);
+        if total > 0 || !users.is_zero() { out.push(format!("mon_weights {} {} {}", lp, total, users)); }
         // … and for EVERY epoch: the weight in effect (value of the last snapshot at or before it) of the total covers
         // the users' weights in effect; checked at every epoch carrying a snapshot of anybody (the functions are
         // piecewise constant), reported for the worst epoch
@@ -230,12 +236,12 @@ pub fn state_monitors(h: &Hist, ms: &mut MonState, out: &mut Vec<String>) {
             let mut epochs: Vec<u64> = th.iter().map(|x| x.0).collect();
             for hh in uhs.iter() { epochs.extend(hh.iter().map(|x| x.0)); }
             epochs.sort(); epochs.dedup();
-            let mut worst: Option<(u64, u128, u128)> = None;
+            let mut worst: Option<(u64, u128, cosmwasm_std::Uint256)> = None;
             for e in epochs {
                 let t = at(&th, e);
-                let us: u128 = uhs.iter().map(|hh| at(hh, e)).sum();
+                let us: cosmwasm_std::Uint256 = uhs.iter().map(|hh| cosmwasm_std::Uint256::from(at(hh, e))).fold(cosmwasm_std::Uint256::zero(), |x, y| x + y);
                 // the first epoch where the users exceed the total, otherwise the last epoch
-                let have_bad = matches!(worst, Some((_, wt, wu)) if wu > wt);
+                let have_bad = matches!(worst, Some((_, wt, wu)) if wu > cosmwasm_std::Uint256::from(wt));
                 if !have_bad { worst = Some((e, t, us)); }
             }
             if let Some((e, t, us)) = worst { out.push(format!("mon_weights_epoch {} {} {} {}", lp, e, t, us)); }
@@ -573,6 +579,12 @@ pub fn tx_monitors(h: &Hist, ms: &mut MonState, b: &Obs, line: &str, res: &str, 
             }
         }
     }
+    // C14: an ACCEPTED single-asset deposit went into a pool with exactly two assets that already held liquidity
+    if ok && tx.contract == "pm" && tx.kind == "provide" && tx.funds.len() == 1 {
+        if let Some(pb) = pool(b, &tx.args[0]) {
+            out.push(format!("mon_single_shape {} {}", pb.assets.len(), pb.assets.iter().all(|c| c.amount.is_zero()) as u8));
+        }
+    }
     // C03: every stableswap pool a route went through: the exact invariant computed from its reported reserves did not decrease
     if ok && tx.contract == "pm" && tx.kind == "route" {
         let n: usize = tx.args[0].parse().unwrap_or(0);
@@ -593,7 +605,13 @@ pub fn tx_monitors(h: &Hist, ms: &mut MonState, b: &Obs, line: &str, res: &str, 
     // C12: SimulateSwapOperations an instant before = the final amount of the executed route (pools pairwise distinct)
     if tx.contract == "pm" && tx.kind == "route" {
         if let Some((quoted, distinct)) = ms.route_quote.take() {
-            if ok { out.push(format!("mon_route_quote {} {} {}", quoted, attr(h, "return_amount").unwrap_or(0), distinct as u8)); }
+            if ok {
+                match quoted {
+                    Some(q) => out.push(format!("mon_route_quote {} {} {}", q, attr(h, "return_amount").unwrap_or(0), distinct as u8)),
+                    // the route executed although the simulation an instant before refused to price it
+                    None => out.push(format!("mon_route_unquoted {}", distinct as u8)),
+                }
+            }
         }
     }
     // C13: an executed constant-product swap (direct, or the first hop of a route) stays within the tolerance
@@ -621,7 +639,7 @@ pub fn tx_monitors(h: &Hist, ms: &mut MonState, b: &Obs, line: &str, res: &str, 
             // both at the pool's highest precision, expressed in ask units; spread / (return + spread) within the tolerance
             if !matches!(pb.pool_type, PoolType::ConstantProduct) && tx.kind == "swap" && belief == "-" {
                 let offer_d = &tx.funds[0].0;
-                let dec_of = |d: &str| -> Option<u8> { pb.asset_denoms.iter().position(|x| h.w.cd(x) == d).map(|i| pb.asset_decimals[i]) };
+                let dec_of = |d: &str| -> Option<u8> { pb.asset_denoms.iter().position(|x| h.w.cd(x) == d).and_then(|i| pb.asset_decimals.get(i).copied()) };
                 if let (Some(od), Some(ad), Some(mx)) = (dec_of(offer_d), dec_of(&ask_d), pb.asset_decimals.iter().max().copied()) {
                     let net = attr(h, "return_amount").unwrap_or(0);
                     let gross = net + attr(h, "swap_fee_amount").unwrap_or(0) + attr(h, "protocol_fee_amount").unwrap_or(0)
@@ -698,6 +716,17 @@ pub fn tx_monitors(h: &Hist, ms: &mut MonState, b: &Obs, line: &str, res: &str, 
                 let sum = |o: &Obs| -> u128 { o.positions.iter().filter(|q| q.receiver == p.receiver && q.lp_asset.denom == p.lp_asset.denom).map(|q| q.lp_asset.amount.u128()).sum() };
                 let lp = h.w.cd(&p.lp_asset.denom);
                 out.push(format!("mon_close_conserves {} {} {}", sum(b), sum(a), delta(b, a, "fm", &lp)));
+                // C08: whatever became closed by this operation (the position itself, or the part split off) unlocks exactly
+                // its own recorded unlocking duration after the block time of the close — whatever the configuration says now
+                {
+                    let now_s = b.now_ns / 1_000_000_000;
+                    for q in a.positions.iter().filter(|q| !q.open && q.receiver == p.receiver) {
+                        let was_open_or_new = b.positions.iter().find(|r| r.identifier == q.identifier).map(|r| r.open).unwrap_or(true);
+                        if was_open_or_new {
+                            out.push(format!("mon_close_expiry {} {} {}", q.expiring_at.map(|e| e.to_string()).unwrap_or("-".into()), now_s, p.unlocking_duration));
+                        }
+                    }
+                }
             }
         }
         // C08: a position operation reaches a position only through its stored identifier: an accepted expand / close /
@@ -743,6 +772,10 @@ pub fn tx_monitors(h: &Hist, ms: &mut MonState, b: &Obs, line: &str, res: &str, 
                             let amounts: Vec<i128> = exp_others.iter().map(|u| delta(b, a, u, &lp)).collect();
                             let equal = amounts.windows(2).all(|w| w[0] == w[1]);
                             out.push(format!("mon_emergency_owners {} {} {} {}", exp_others.len(), paid_exp, paid_unexp, equal as u8));
+                            // C09: the penalty is split IN FULL: what stays behind in the farm manager out of the position's amount is
+                            // only the rounding dust of the division among the n distinct active farm owners (< n units) —
+                            // whoever those owners are (the fee collector and the position owner may be among them)
+                            out.push(format!("mon_penalty_total {} {} {}", p.lp_asset.amount, -delta(b, a, "fm", &lp), expected.len()));
                             // C09: the AMOUNT withheld = floor(amount x min(cap, base x remaining/duration x weight/amount)) — judged
                             // by the model's formula on the position as it was, when the owner is not also paid as a farm owner
                             if !expected.contains(&owner) {
